@@ -97,6 +97,19 @@ func runC12(c *Case) {
 							if t, err := openVersions(w.st, fmt.Sprintf("obsm%d", i), w.prefix, []string{n}); err == nil {
 								if md, err := scanKV(t, hcols); err == nil {
 									h.snaps = append(h.snaps, vsnap{Step: i, W: -1, Raw: `["` + n + `"]`, Names: []string{n}, Dump: md, ByKey: dumpByKey(md)})
+									// the diff from nothing to this member, asked for through the observer's
+									// multi-version table, is the member's rows (not those of the merged view)
+									ct := tname(c, "obschg")
+									if err := ro.Exec(fmt.Sprintf("create virtual table %s using s3db_changes (table='%s', from='[]', to='[\"%s\"]')", ct, rt, n)); err == nil {
+										rows, err := ro.Rows("select * from " + ct)
+										ro.Exec("drop table " + ct)
+										c.Count("diffs_through_multi_version_table", 1)
+										if err != nil {
+											fail("diff-error:through-multi-version-table", fmt.Sprintf("s3db_changes(from=[], to=[%s]) through a read-only table showing %v: %v", n, s.Names, err))
+										} else if d := firstDiff(md, sortedRows(rows)); d != "" {
+											fail("diff-wrong:through-multi-version-table", fmt.Sprintf("s3db_changes(from=[], to=[%s]) through a read-only table showing %v differs from the member's rows (rows vs diff): %s", n, s.Names, d))
+										}
+									}
 								}
 							}
 						}
